@@ -43,7 +43,9 @@ func (k Keeper) AllocateRewards(ctx context.Context, reports []*types.Aggregate,
 		for _, r := range report.Reporters {
 			reporter, found := reportersMap[r.Reporter]
 			if found {
-				reporter.Reports++
+				// a reporter that appears in several of the rewarded aggregates is paid for the power it
+				// contributed to each of them (its power may differ from one report to the next)
+				reporter.Power += r.Power
 			} else {
 				reporter = ReportersReportCount{
 					Power:   r.Power,
